@@ -197,13 +197,14 @@ impl Worksheet {
                 style: cols[index].style,
                 hidden: cols[index].hidden,
             };
+            let hidden = cols[index].hidden;
             let col = Col {
                 min: column,
                 max: column,
                 width,
                 custom_width,
                 style: None,
-                hidden: false,
+                hidden,
             };
             let post = Col {
                 min: column + 1,
@@ -217,7 +218,7 @@ impl Worksheet {
             if column != max {
                 cols.insert(index, post);
             }
-            if custom_width {
+            if custom_width || hidden {
                 cols.insert(index, col);
             }
             if column != min {
